@@ -26,6 +26,10 @@ var (
 
 func table(name string) []int64 {
 	switch {
+	case name == "defaultMaxStagedTraceCount": // traces per sampler decision batch
+		return []int64{1, 2, 3, 7}
+	case name == "defaultStageBudgetFloor": // bytes staged per sampler decision batch
+		return []int64{1, 600, 5000, 60000}
 	case name == "maxBlockLength":
 		return rowsPerBlock
 	case strings.Contains(name, "PrimaryBlock"):
